@@ -38,6 +38,7 @@ func genWorld(t *rapid.T, opts scenarioOpts) *scenario {
 	w := &world{
 		logs:  map[string][]entry{},
 		head:  map[string]int{},
+		pub:   map[string]int{},
 		base:  map[string]int{},
 		byTag: map[int]entry{},
 		date:  1000,
@@ -58,6 +59,15 @@ func genWorld(t *rapid.T, opts scenarioOpts) *scenario {
 			if kind == "del" || kind == "cdel" {
 				c = rapid.IntRange(1, 3).Draw(t, "cnt")
 			}
+			if kind == "cread" || kind == "web" {
+				c = 0
+				if p == 0 {
+					// an update that occupies no position carries the current pts; before the
+					// first event that would be pts 0, which an honest server never sends
+					// (0 is the "unset" value and is filtered only on the qts path)
+					kind, c = kinds[0], 1
+				}
+			}
 			tag++
 			e := entry{seq: seq, start: p, end: p + c, tag: tag, kind: kind, ch: ch}
 			p += c
@@ -66,12 +76,12 @@ func genWorld(t *rapid.T, opts scenarioOpts) *scenario {
 		}
 	}
 	mk("pts", rapid.SampledFrom([]int{0, 50}).Draw(t, "ptsBase"), rapid.IntRange(0, 10).Draw(t, "nPts"),
-		[]string{"msg", "msg", "del", "read", "edit"}, 0)
+		[]string{"msg", "msg", "msg", "del", "read", "edit", "web"}, 0)
 	mk("qts", rapid.SampledFrom([]int{0, 7}).Draw(t, "qtsBase"), rapid.IntRange(0, 4).Draw(t, "nQts"),
 		[]string{"enc", "enc", "qother"}, 0)
 	for _, id := range sc.channels {
 		mk(chSeq(id), rapid.SampledFrom([]int{0, 20}).Draw(t, "chBase"), rapid.IntRange(0, 7).Draw(t, "nCh"),
-			[]string{"cmsg", "cmsg", "cdel", "cedit"}, id)
+			[]string{"cmsg", "cmsg", "cmsg", "cdel", "cedit", "cread"}, id)
 	}
 	w.sliceLimit = rapid.SampledFrom([]int{0, 0, 0, 1, 2, 3}).Draw(t, "sliceLimit")
 	if opts.tooLong {
@@ -130,12 +140,12 @@ func (sc *scenario) publish(seq string) (entry, bool) {
 	w := sc.w
 	w.mu.Lock()
 	defer w.mu.Unlock()
-	for _, e := range w.logs[seq] {
-		if e.end > w.head[seq] {
-			w.head[seq] = e.end
-			w.date++
-			return e, true
-		}
+	if i := w.pub[seq]; i < len(w.logs[seq]) {
+		e := w.logs[seq][i]
+		w.pub[seq] = i + 1
+		w.head[seq] = e.end
+		w.date++
+		return e, true
 	}
 	return entry{}, false
 }
